@@ -129,6 +129,40 @@ def gen():
         raise Fail(f"{MACH}: step: MStructSet allocation `{mm.group(1)}` not recognised")
     o.append(f"/-- `MStructSet(n)` allocates `Vec::with_capacity(n)` with the unchecked operand `n` ({MACH}) -/")
     o.append(f"def mstructSetCapUnbounded : Bool := {'true' if unbounded else 'false'}")
+    # ---- QueryStart/QueryNext: does the iterator stack remember the query literal and skip
+    #      rows that do not `fact_match` it?  Update: compare only the given value fields?
+    nows = flat.replace(" ", "")
+    unrecognised = []  # soft: breaks only C25 (Props/C25 requires `armsRecognised = true`)
+    if "query_iter_stack:Vec<(Fact,M::QueryIterator)>," in nows:
+        if "iter.find(|r|matchr{Ok((k,v))=>fact_match(query,k,v),Err(_)=>true" not in nows:
+            unrecognised.append("QueryNext keeps the query literal but its row filter is not recognised")
+        qfilter = True
+    elif "query_iter_stack:Vec<M::QueryIterator>," in nows:
+        qfilter = False
+    else:
+        unrecognised.append("RunState.query_iter_stack: element type not recognised")
+        qfilter = False
+    mm = re.search(r"Instruction::Update => \{(.*?)Instruction::Emit =>", flat)
+    if not mm:
+        raise Fail(f"{MACH}: step: Update arm not found")
+    upd = mm.group(1).replace(" ", "")
+    if "sort_unstable_by" in upd and "replaced_fact_values.as_slice()!=fact_from.values.as_slice()" in upd:
+        given_only = False
+    elif "letvalues_match=fact_from.values.iter().all(|fv|{replaced_fact.1.iter().find(|v|v.identifier==fv.identifier).is_some_and(|v|v.value==fv.value)" in upd:
+        given_only = True
+    else:
+        unrecognised.append("Update value comparison not recognised")
+        given_only = False
+    o.append("")
+    o.append(f"/-- `QueryNext` skips rows that do not `fact_match` the `QueryStart` literal ({MACH}) -/")
+    o.append(f"def queryNextFilters : Bool := {'true' if qfilter else 'false'}")
+    o.append("")
+    o.append(f"/-- `Update` compares only the value fields given in the `from` literal ({MACH}) -/")
+    o.append(f"def updateGivenOnly : Bool := {'true' if given_only else 'false'}")
+    o.append("")
+    o.append("/-- the `QueryStart`/`QueryNext`/`Update` arms have one of the shapes the model knows -/")
+    o.append(f"def armsRecognised : Bool := {'true' if not unrecognised else 'false'}")
+    o.append("def armsUnrecognised : List String := [" + ", ".join('"' + u + '"' for u in unrecognised) + "]")
     o += ["", "end AranyaV.VM", ""]
     return "\n".join(o)
 
